@@ -149,7 +149,11 @@ def check (accts : List Addr) (tainted invOk : Bool) (p : State) (op : Op) (ok :
   let ds := allDenoms p c
   let h := p.holder
   if !ok then
-    firstFail ([ (sameBalances accts p c ds && sameRecCoins p c ds && sameRecCoins c p ds
+    let neverFails : Bool := match op with
+      | .accept _ froms _ => tainted || froms.isEmpty   -- `accept_never_fails`
+      | .optIn _ | .optOut _ => false
+      | _ => true
+    firstFail ([ (neverFails, "accept_or_opt_failed"), (sameBalances accts p c ds && sameRecCoins p c ds && sameRecCoins c p ds
                   && p.optin.length = c.optin.length && p.auto.length = c.auto.length, "rejected_changes_state") ]
                ++ stateChecks tainted invOk c ds)
   else
